@@ -487,6 +487,11 @@ func c12Store(c *fw.Ctx, ep entryPoint, v any) {
 					c.Violate("matching-getter-panics", in(), "Get"+k.String()+" succeeds", "panic")
 					return
 				}
+				if gf, isF := gv.(float64); isF && math.IsNaN(gf) {
+					if g0, ok := got.(float64); ok && math.IsNaN(g0) {
+						continue // NaN is NaN, though not == to itself
+					}
+				}
 				if ident == nil && !kind2container(kind) && gv != got {
 					c.Violate("getter-value-differs", in(), fmt.Sprint(got), fmt.Sprint(gv))
 					return
@@ -598,8 +603,8 @@ func runC12(c *fw.Ctx) {
 	})
 	// floats, strings, bools, nil, containers by identity
 	f32 := []float32{0, float32(math.Copysign(0, -1)), 1, -1, 0.1, 1.0 / 3, math.MaxFloat32, -math.MaxFloat32, math.SmallestNonzeroFloat32, 1e-40, 1.1754942e-38, 1.17549435e-38, 16777216, 16777217, 3.4e38,
-		float32(math.Inf(1)), float32(math.Inf(-1)), 0.5, 123456.789, 1e-7, 1e7, 999999.94}
-	misc := []any{nil, true, false, "", "s", string(rune(0x1f600)), float64(0.1), math.MaxFloat64, 5e-324, math.Inf(1), math.Copysign(0, -1), at.NewList(1), at.NewObject("a", 1), at.NewList(), at.NewObject(),
+		float32(math.Inf(1)), float32(math.Inf(-1)), 0.5, 123456.789, 1e-7, 1e7, 999999.94, float32(math.NaN()), math.Float32frombits(0x7fa00001), math.Float32frombits(0xffc00000)}
+	misc := []any{nil, true, false, "", "s", string(rune(0x1f600)), float64(0.1), math.MaxFloat64, 5e-324, math.Inf(1), math.Copysign(0, -1), math.NaN(), math.Float64frombits(0xfff8000000000001), at.NewList(1), at.NewObject("a", 1), at.NewList(), at.NewObject(),
 		NewDObject("d", 1), NewDDObject(), NewDList(1, 2), NewDDDList()} // derived structures are Objects / Lists too
 	for _, f := range f32 {
 		misc = append(misc, f)
